@@ -27,6 +27,8 @@ def run(chk):
     thorough = chk.tier == "thorough"
     chk.mc("Loaders", "MC_Loaders.cfg", required=["ResolveDegree", "DeleteColumn", "CreateJdd", "TryCandidate", "Restore"])
     chk.mc("Loaders", "MC_Loaders_rejectleak.cfg", expect_violation="C06_Law")   # deviation: a rejected candidate input leaves something behind
+    from .. import crash
+    crash.mc(chk)
     chk.mc("Loaders", "MC_Loaders_pinned_asc.cfg", expect_violation="C08_ColumnsAreOccurringSizes")
     rng = _r.Random(chk.seed)
     cs = []
@@ -50,6 +52,8 @@ def run(chk):
     # crash points: a malformed candidate cover is rejected by create_jdd and the previous cover is put back
     for i, c0 in enumerate([c for c in cs if c.get("cover")][:90 if not thorough else 600]):
         cs.append(dict(c0, reject=1 + i % 3, compose_n=0))
+    for i, c0 in enumerate([c for c in cs if c.get("cover") and not c.get("reject")][:60 if not thorough else 600]):
+        cs.append(dict(c0, pre_abort=rng.random(), compose_n=0))
     chk.exhaustive["all covers of <= 2 cliques (sizes 2..4) over contiguous vertices 0..3 / 1..4"] = True
     for i in range(15000 if thorough else 150):
         mix = rng.choice(mixes)
